@@ -228,7 +228,7 @@ fn strip_module_prefix(p: &mut syn::Path, cx: &mut Ctx, is_type: bool) {
     let first = p.segments[0].ident.to_string();
     let lower = |s: &syn::PathSegment| s.ident.to_string().chars().next().map(|c| c.is_lowercase()).unwrap_or(false);
     if !lower(&p.segments[0]) { return; }
-    if !STRIP_ROOTS.contains(&first.as_str()) {
+    if !STRIP_ROOTS.contains(&first.as_str()) && !cx.local_mods.contains(&first) {
         cx.err(format!("outside dialect: no {} rule for `{}`", if is_type { "type" } else { "path" }, nospace(&p.to_token_stream().to_string())));
         return;
     }
@@ -302,6 +302,7 @@ pub struct Rw<'c> {
     pub lift_prefix: String,
     pub gen_idents: Vec<String>,          // generic type parameters of the enclosing item (for typed closure constructors)
     pub typed_ctors: BTreeSet<String>,    // constructors whose signature the spec gives (`@sig <name>__new`)
+    pub typed_caps: BTreeSet<String>,     // "<ctor> <capture>" pairs whose type the spec gives (`@captype <ctor> <capture>`)
 }
 /// a closure literal or async block that is used as a value (rules L1 / A3)
 pub struct LiftedClosure { pub k: usize, pub name: String, pub captures: Vec<String>, pub is_move: bool, pub inputs: Vec<syn::Pat>, pub body: syn::Block, pub is_async_block: bool, pub line: usize }
@@ -336,7 +337,7 @@ fn has_control_escape(e: &Expr) -> bool {
 }
 
 impl<'c> Rw<'c> {
-    pub fn new(cx: &'c mut Ctx, lifted: bool, binders: BTreeSet<String>, fn_name: String) -> Self { Rw { cx, lifted, binders, lift_prefix: fn_name.replace("::", "__").replace('@', "_"), fn_name, loops: 0, self_to_this: false, closures: 0, lifted_closures: vec![], gen_idents: vec![], typed_ctors: BTreeSet::new() } }
+    pub fn new(cx: &'c mut Ctx, lifted: bool, binders: BTreeSet<String>, fn_name: String) -> Self { Rw { cx, lifted, binders, lift_prefix: fn_name.replace("::", "__").replace('@', "_"), fn_name, loops: 0, self_to_this: false, closures: 0, lifted_closures: vec![], gen_idents: vec![], typed_ctors: BTreeSet::new(), typed_caps: BTreeSet::new() } }
 
     fn select_to_match(&mut self, m: &syn::Macro) -> Option<Expr> {
         let arms: Arms = match syn::parse2(m.tokens.clone()) { Ok(a) => a, Err(e) => { self.cx.err(format!("outside dialect: select! arms in {}: {}", self.fn_name, e)); return None; } };
@@ -494,6 +495,15 @@ impl<'c> VisitMut for Rw<'c> {
                 self.cx.fire("T1"); *e = parse_quote!(#inner.#m());
             }
         }
+        // T1: dyn_clone::clone_box(&*boxed) is the clone of the boxed closure object
+        if let Expr::Call(c) = e {
+            if c.args.len() == 1 && nospace(&c.func.to_token_stream().to_string()) == "dyn_clone::clone_box" {
+                let mut inner = c.args[0].clone();
+                if let Expr::Reference(r) = &inner { inner = (*r.expr).clone(); }
+                if let Expr::Unary(u) = &inner { if matches!(u.op, syn::UnOp::Deref(_)) { inner = (*u.expr).clone(); } }
+                self.cx.fire("T1"); *e = parse_quote!(#inner.clone());
+            }
+        }
         // T4: to_owned on Clone types is clone
         if let Expr::MethodCall(m) = e { if m.method == "to_owned" && m.args.is_empty() { m.method = syn::Ident::new("clone", m.method.span()); self.cx.fire("T4"); } }
         // F2: future.map(Ok) / future.map(|_| ())
@@ -523,9 +533,17 @@ impl<'c> VisitMut for Rw<'c> {
             let args: Vec<Expr> = caps.iter().map(|c| { let id = ident(if self.self_to_this && c == "self" { "this" } else { c }); if is_move { parse_quote!(#id) } else { parse_quote!(&#id) } }).collect();
             self.cx.fire(if is_async { "A3" } else { "L1" });
             self.lifted_closures.push(LiftedClosure { k, name, captures: caps, is_move, inputs, body, is_async_block: is_async, line });
-            if self.typed_ctors.contains(&format!("{}__new", name_for_ctor(&ctor))) && !self.gen_idents.is_empty() {
+            let cname = ctor.to_string();
+            let any_typed = self.lifted_closures.last().map(|l| l.captures.iter().any(|c| self.typed_caps.contains(&format!("{} {}", cname, c)))).unwrap_or(false);
+            if self.typed_ctors.contains(&cname) && !self.gen_idents.is_empty() {
                 let gi: Vec<syn::Ident> = self.gen_idents.iter().map(|g| ident(g)).collect();
                 *e = parse_quote!(#ctor::<#(#gi),*>(#(#args),*));
+            } else if any_typed {
+                // enclosing generics explicitly, one `_` per capture whose type stays generic
+                let gi: Vec<syn::Ident> = self.gen_idents.iter().map(|g| ident(g)).collect();
+                let n_generic = self.lifted_closures.last().unwrap().captures.iter().filter(|c| !self.typed_caps.contains(&format!("{} {}", cname, c))).count();
+                let holes: Vec<TokenStream> = (0..n_generic).map(|_| quote!(_)).collect();
+                *e = parse_quote!(#ctor::<#(#gi,)* #(#holes),*>(#(#args),*));
             } else { *e = parse_quote!(#ctor(#(#args),*)); }
             return;
         }
